@@ -336,11 +336,13 @@ def gssvx_cases(tier, prec="d", purpose="C05"):
             # fill-changing refactorization in the large: L-shaped pattern (dense first column + dense last row + diagonal), concrete values steered so that the first factorization
             # keeps the diagonal (no fill) and every later one pivots on the dense row (complete fill): the storage adopted by SamePattern_SameRowPerm grows during the refactor step
             # (library allocation: blocks are reallocated; caller workspace: arrays slide in place, vacated bytes poisoned by the repo's guarded hook); B symbolic
+            big = []
             for n_ in ((8,) if q else (6, 8, 10, 12)):
                 for tn in ("t112_f1", "t214_f1"):
                     for lw in (0, 6000 if n_ <= 8 else 12000):
                         for h, tr in ((134, 121), (13, 12)) if q else ((134, 121), (13, 12), (1334, 1213), (1234, 1213) if lw == 0 else (1343, 1211)):
-                            cs.append(xcase(n_, C.lshape(n_), hist=h, trans=tr, symcols=0, tune=tn, nrhs=1, scalemode=4, lworkmode=lw))
+                            big.append(xcase(n_, C.lshape(n_), hist=h, trans=tr, symcols=0, tune=tn, nrhs=1, scalemode=4, lworkmode=lw))
+            cs = big + cs      # one path each: explored first, before the path-heavy symbolic histories use up the phase budget
         if not q:
             for h in hs2 + hs3 + (1234, 1324, 1334, 1243):
                 for pat in C.all_patterns(2, 2): cs.append(xcase(2, pat, hist=h, trans=1231, symcols=-1 if h < 100 else 2, equil=(pat >> 1) & 1))
